@@ -160,9 +160,34 @@ def generate(res, wd, prop, tier):
     return cases, gen, dist
 
 
-def record_and_validate(res, exe, wd, cases, prop):
+def walk_traces(exe, wd, prop, tier):
+    """Long random histories (the walks of the mapper checks: ill-formed events, resets with key activity during tablet mode) over many small
+    layouts, taken through the real loop and driver at the system-call level and written as call traces for LoopTrace.tla: the loop monitors
+    (sends = the mapper's answers; fresh after tablet mode; nothing held at tablet-on) beyond the handful of layouts Loop.tla enumerates schedules for."""
+    import families as F
+    thorough = tier == "thorough"
+    n = 120 if not thorough else 1200
+    jobs = []
+    fam = F.small_family("lw", F.anyl, 1, 60 if not thorough else 600, None, 0, 0, ones=False)[:n // 2] + \
+        F.small_family("lwabs", F.has_abs, 1, 60 if not thorough else 600, None, 0, 0, ones=False)[:n // 4] + F.abs_cross(every=9 if not thorough else 2)[:n // 4]
+    sd = 0 if not thorough else seed()
+    for i, j in enumerate(fam):
+        jobs.append({"id": "LW-%s" % j["id"], "layout": j["layout"], "keys": "auto", "maxheld": 4 + i % 2, "steps": 200 if not thorough else 600, "seed": 1000 * sd + i,
+                     "via": "loop", "out": "looptrace", "noise": i % 4, "ra_pct": 4 if prop in ("C12", "C06") else 2})
+    traces = []
+    nch = max(1, min(PROCS, len(jobs) // 8))
+    for i in range(nch):
+        jp = os.path.join(wd, "lwjobs_%d.json" % i)
+        json.dump({"jobs": jobs[i::nch]}, open(jp, "w"))
+        tp = os.path.join(wd, "lwtrace_%d.ndjson" % i)
+        run_tmv(exe, ["walk", jp], stdout_path=tp)
+        traces.append(tp)
+    return jobs, traces
+
+
+def record_and_validate(res, exe, wd, cases, prop, extra_traces=()):
     """-> (lines, counters, bad [(trace id, clauses)], known, accepted_traces)"""
-    nchunks = max(1, min(PROCS, len(cases) // 50 or 1))
+    nchunks = max(1, min(PROCS, len(cases) // 50 or 1)) if cases else 0
     chunks = [cases[i::nchunks] for i in range(nchunks)]
     t0 = time.time()
 
@@ -174,6 +199,7 @@ def record_and_validate(res, exe, wd, cases, prop):
         return tp
     with ThreadPoolExecutor(max_workers=PROCS) as ex:
         traces = list(ex.map(rec, range(nchunks)))
+    traces += list(extra_traces)
     nlines = sum(sum(1 for _ in open(t)) for t in traces)
     log("[record] the real loop under %d schedules: %d trace lines, %.1fs" % (len(cases), nlines, time.time() - t0))
     with open(os.path.join(wd, "LT.tla"), "w") as f:
@@ -332,7 +358,7 @@ def fault_of(tid):
     return int(tid.split("/f")[1]) if "/f" in tid else 0
 
 
-def digest(res, prop, cases, bad, kn):
+def digest(res, prop, cases, bad, kn, walkjobs=None):
     by_id = {c["id"]: c for c in cases}
     others = {}
     for tid, clauses in kn:
@@ -349,7 +375,15 @@ def digest(res, prop, cases, bad, kn):
         for c in clauses:
             if clause_prop(c, prop) not in (prop, "ENV"):
                 others[c] = others.get(c, 0) + 1
-        if mine:
+        if mine and str(tid).startswith("LW-"):
+            wj = (walkjobs or {}).get(tid)
+            if nrep < 10 and wj:
+                res.violation(",".join(mine), {"engine": "E2-loop-walk", "trace_id": tid, "job": wj, "layout": wj["layout"],
+                                               "how": "bin/check %s --replay <this file> takes the same random history through the real loop again and lets TLC validate the trace" % prop})
+                nrep += 1
+            else:
+                res.more_violations += 1
+        elif mine:
             c = by_id.get(base_id(tid))
             if nrep < 10:
                 res.violation(",".join(mine), {"engine": "E2-loop-trace", "trace_id": tid, "layout": c["layout"], "sched": c["sched"], "sleep": c["sleep"], "fault": fault_of(tid), "mode": c.get("mode", "scripted"), "noise": c.get("noise", 0), "werr": c.get("werr", 5), "su": c.get("su", []),
@@ -394,8 +428,9 @@ def loop_level(res, exe, wd, tier, prop):
     if res.tool_errors:
         return {}
     runs_cases = variants(prop, tier, cases)
-    nlines, counters, bad, kn = record_and_validate(res, exe, wd, runs_cases, prop)
-    digest(res, prop, runs_cases, bad, kn)
+    wjobs, wtraces = walk_traces(exe, wd, prop, tier)
+    nlines, counters, bad, kn = record_and_validate(res, exe, wd, runs_cases, prop, wtraces)
+    digest(res, prop, runs_cases, bad, kn, {j["id"]: j for j in wjobs})
     regs = dict(zip(REGS, counters))
     if not res.tool_errors:
         missing = [REGS[i - 1] for i in NEED[prop] if counters[i - 1] == 0]
@@ -410,6 +445,24 @@ def check(prop, tier, replay_file=None):
     try:
         exe = build_harness()
         wd = workdir("%s-%s" % (prop, "replay" if replay_file else tier))
+        if replay_file and json.load(open(replay_file)).get("engine") == "E2-loop-walk":
+            rp = json.load(open(replay_file))
+            jp = os.path.join(wd, "lwjobs_replay.json")
+            json.dump({"jobs": [rp["job"]]}, open(jp, "w"))
+            tp = os.path.join(wd, "lwtrace_replay.ndjson")
+            run_tmv(exe, ["walk", jp], stdout_path=tp)
+            nlines, counters, bad, kn = record_and_validate(res, exe, wd, [], prop, [tp])
+            for l in list(open(tp))[-12:]:
+                log("  " + l.strip()[:300])
+            if res.tool_errors:
+                log("TOOL-ERROR: " + res.tool_errors[0])
+                return 2
+            mine = [c for _, cl in bad for c in cl if clause_prop(c, prop) == prop]
+            if mine:
+                log("VIOLATION property=%s replay=%s clause=%s" % (prop, replay_file, ",".join(sorted(set(mine)))))
+                return 1
+            log("replay: no clause of %s is violated by the real loop on this history" % prop)
+            return 0
         if replay_file:
             rp = json.load(open(replay_file))
             cases = [{"id": "replay", "layout": rp["layout"], "sched": rp["sched"], "sleep": rp.get("sleep", "no"), "faults": rp.get("fault", 0), "mode": rp.get("mode", "scripted"), "noise": rp.get("noise", 0), "werr": rp.get("werr", 5), "su": rp.get("su", [])}]
@@ -429,14 +482,15 @@ def check(prop, tier, replay_file=None):
         if res.tool_errors:
             return res.finish()
         runs_cases = variants(prop, tier, cases)
-        nlines, counters, bad, kn = record_and_validate(res, exe, wd, runs_cases, prop)
+        wjobs, wtraces = walk_traces(exe, wd, prop, tier) if prop in ("C10", "C12") else ([], [])
+        nlines, counters, bad, kn = record_and_validate(res, exe, wd, runs_cases, prop, wtraces)
         fs = {}
         if prop == "C10" and not res.tool_errors:
             fs = startup_runs(res, exe, wd, tier)
             if fs:
                 runs_cases = runs_cases + list(fs["cases"].values())
                 bad = bad + fs["loopbad"]
-        digest(res, prop, runs_cases, bad, kn)
+        digest(res, prop, runs_cases, bad, kn, {j["id"]: j for j in wjobs})
         regs = dict(zip(REGS, counters))
         s0 = cases[len(cases) // 2]
         samples = [{"layout": s0["lname"], "schedule": [(l["a"] + ":" + l["t"] + (":" + l["k"] if l["k"] else "") + (":" + l["x"] if l["x"] else "")) for l in s0["sched"]]}]
@@ -449,6 +503,7 @@ def check(prop, tier, replay_file=None):
             "states": dist, "transitions": gen, "traces_validated_against_impl": regs["traces"], "samples": samples,
             "schedules_enumerated": len(cases), "runs_of_the_real_loop": regs["traces"], "trace_lines_validated": nlines,
             "monitor_counters": regs, "conformance_drifts": regs["drifts"],
+            "random_histories_through_the_real_loop_over_small_layouts": len(wjobs),
             "schedules_also_run_under_the_real_driver_at_system_call_level": sum(1 for c in runs_cases if c.get("mode") == "sys"),
             "configurations": [{"layout": c[0], "key_events": c[1], "max_arrivals": c[2], "max_tablet_events": c[3], "max_timeouts": c[4], "max_interruptions": c[5],
                                 "burst_of_events_arriving_at_once": c[6] if len(c) > 6 else 0} for c in GEN[(prop, tier)]],
